@@ -239,7 +239,8 @@ def run(pid, tier, replay_file=None):
                 a, b = (ob.get("jm"), ob.get("jm1")) if tag == "C06dsl" else (ob["j0"], ob["j1"])
                 msg = (f"round trip is not the identity ({tag}): {json.dumps(a)[:200]} -> "
                        f"{json.dumps(b)[:200]}")
-                key = ("C06", "json-roundtrip", _kwsig_json(a))
+                key = ("C06", clause) if clause == "definition-names-differ-only" else \
+                      ("C06", clause, _kwsig_json(a))
             else:
                 msg = (f"defaults/descriptions of {sjson(st)} not preserved in the {tag}: "
                        + (json.dumps(ob.get('j0'))[:200] if tag == "json" else json.dumps(ob.get('elem' if tag == 'elem' else 'py_root'))[:300]))
